@@ -6,8 +6,9 @@ Strings travel percent-encoded (one token, no spaces): printable ASCII passes th
 `~~` = empty list; lists are `,`-separated, lists of lists `;`-separated.
 
   rt <name> <ts> <uni> <eq> <sl> <slstr> <commentLines> <classLabel> <values> <panel>
-        → w=<text|E:..> p=<result|->          (write, then parse what was written)
-  ts <text> | arff <T/F> <text> | tsv <text>  → <result>
+        → w=<text|E:..> p=<result|-> pf=<result|->   (write, then parse what was written; pf = no-label
+          files parsed after replacing the header line `@class_label false` by `@classLabel false`)
+  ts <text> | arff <T/F> <text> | tsv <text>  → ts=<result> | arff=<result> | tsv=<result>
   fmt <ts> <arff> <tsv|~~>                    → ts=<result> arff=<result> tsv=<result|->
   load <train> <test>                         → train=<result> test=<result> none=<result>
 result = ok!<ndims>!<N | L labels>!<dims '|' instances ';' values ','>  or  E:<kind>
@@ -105,20 +106,27 @@ def handle (toks : List String) : String :=
       let o : WOpts := { problemName := name, timestamp := ts, univariate := uni, classLabel := cl,
                          equalLength := eq, seriesLength := sl, seriesLengthStr := slstr, commentLines := com }
       match write o panel vals with
-      | .error e => s!"w={showErr e} p=-"
-      | .ok text => s!"w={enc text} p={showRes (parseTs text)}"
+      | .error e => s!"w={showErr e} p=- pf=-"
+      | .ok text =>
+        -- pf: the same panel through the writer with the repaired no-label header line
+        let pf := if cl.isEmpty then
+            (match writeFixed o panel vals with
+             | .ok t2 => showRes (parseTs t2)
+             | .error e => showErr e)
+          else "-"
+        s!"w={enc text} p={showRes (parseTs text)} pf={pf}"
     | _, _, _, _, _, _, _, _, _, _ => "bad-op"
   | ["ts", text] =>
     match dec text with
-    | some t => showRes (parseTs t)
+    | some t => s!"ts={showRes (parseTs t)}"
     | none => "bad-op"
   | ["arff", hl, text] =>
     match parseBool? hl, dec text with
-    | some hl, some t => showRes (parseArff hl t)
+    | some hl, some t => s!"arff={showRes (parseArff hl t)}"
     | _, _ => "bad-op"
   | ["tsv", text] =>
     match dec text with
-    | some t => showRes (parseTsv t)
+    | some t => s!"tsv={showRes (parseTsv t)}"
     | none => "bad-op"
   | ["fmt", ts, arff, tsv] =>
     match dec ts, dec arff with
